@@ -348,8 +348,19 @@ def _likelihood(fam, model, data, opts, per_slice):
     return eu.mixture_ll(lp, fam.weight(model), opts.get('saliency'), per_slice=per_slice)
 
 
+def _cancellation(family, data):
+    """'up to rounding' for un-centred Gaussian data: deviations y - mean are formed at the magnitude of y, so they (and the
+    log-likelihood) carry a relative error of eps * max|y| / spread; factor >= 1 applied to the 1e-9 tolerance"""
+    if not (family.startswith('gmm') or family.startswith('gcacgmm')):
+        return 1.0
+    x = np.asarray(data['e'] if family.startswith('gcacgmm') else data['y'], dtype=np.float64)
+    spread = float(np.median(np.abs(x - np.median(x, axis=-2, keepdims=True)))) or 1.0
+    return max(1.0, 1e-4 * float(np.max(np.abs(x))) / spread)
+
+
 def _judge(name, family, fam, models, data, opts, per_slice):
     """models: list of the models after iteration 1, 2, ... ; returns Fail or (n_steps_judged, guard_reason)"""
+    cf = _cancellation(family, data)
     prev = None
     judged = 0
     for i, m in enumerate(models, start=1):
@@ -360,7 +371,7 @@ def _judge(name, family, fam, models, data, opts, per_slice):
         if not np.all(np.isfinite(L)):
             return Fail(f'likelihood-not-finite:{family}', f'{name}: log-likelihood after iteration {i} is {L}')
         if prev is not None:
-            bad = L < prev - _tol(prev)
+            bad = L < prev - cf * _tol(prev)
             if np.any(bad):
                 j = int(np.argmax(prev - L))
                 return Fail(f'likelihood-decreased:{family}',
@@ -470,6 +481,12 @@ def gen_case(rng, family, max_iter, small=False):
         outliers = int(rng.integers(1, 5))
         idx = rng.choice(N, outliers, replace=False)
         x[..., idx, :] = x[..., idx, :] * 10.0 ** rng.uniform(1.5, 3.5) * np.std(x)
+    offset = 0
+    if (family.startswith('gmm') or fam.has_embedding) and not with_outliers and rng.random() < 0.3:
+        # un-centred data: a common offset of 1e3..1e7 standard deviations (a Gaussian mixture is translation equivariant)
+        x = e if fam.has_embedding else y
+        offset = int(rng.integers(3, 8))
+        x += 10.0 ** offset * float(np.std(x)) * rng.choice([-1.0, 1.0], size=x.shape[-1])
     init, ikind = eu.positive_start(rng, lead, K, N)
     skind = str(rng.choice(SALIENCY))
     opts = {'weight_constant_axis': list(wca) if isinstance(wca, tuple) else wca,
@@ -480,7 +497,7 @@ def gen_case(rng, family, max_iter, small=False):
         opts['affiliation_eps'] = [0.0, 1e-10][int(rng.integers(2))]
     iterations = int(rng.integers(1, max_iter + 1))
     meta = dict(family=family, K=K, D=D, E=E, F=F, N=N, wca=str(wca), saliency=skind, start=ikind,
-                covariance_norm=str(opts.get('covariance_norm')), iterations=iterations, outliers=outliers)
+                covariance_norm=str(opts.get('covariance_norm')), iterations=iterations, outliers=outliers, offset=offset)
     return dict(family=family, y=y, e=e, init=init, opts=opts, iterations=iterations), meta
 
 
@@ -504,7 +521,7 @@ def search(ctx):
         em_monotone.last = None
         held = ctx.run(em_monotone, **case)
         last = em_monotone.last or {}
-        for k in ('family', 'wca', 'saliency', 'covariance_norm', 'outliers'):
+        for k in ('family', 'wca', 'saliency', 'covariance_norm', 'outliers', 'offset'):
             ctx.count(f'search-{k}:{meta[k]}')
         ctx.count('search-steps-judged', int(last.get('judged', 0)))
         ctx.count(f'search-guard:{last.get("guard")}')
